@@ -10,6 +10,9 @@ def model_checks(c):
     c.add_mc("AesRefMC (FIPS 197 in plain TLA+, S-box = its definition on all 256 bytes, = JDK AES on the appendix C vectors and 202 pattern keys/blocks)",
              vlib.tlc(g.SD, "AesRefMC", workers=2, timeout=600))
     c.cov["exhaustive"] = True
+    vlib.apalache_inductive(c, g.SD, "AesCtrGeom", (["--init=Init", "--inv=IndInv", "--length=0"], ["--init=IndInit", "--inv=IndInv", "--length=1"]),
+                            "AES-CTR counter logic with the real constants (16-byte blocks, counter byte wrapping at 256): keystream bytes taken in block order and "
+                            "the encoded counter consistent with the position, for every stream position and mix of portable / accelerated steps")
 
 
 def main(c):
